@@ -106,4 +106,5 @@ def canonicalize_metadata(
     if isinstance(metadata, dict):
         return tuple(zip(keys, newvalues))
     else:
-        return tuple(newvalues)
+        # keep the sequence type: [1, 2] and (1, 2) are different metadata values
+        return (type(metadata).__name__, *newvalues)
